@@ -518,7 +518,15 @@ func TestVerif_C01_e2e(t *testing.T) {
 	}
 	r := s.Rand()
 	n := verifh.N(800, 6000)
+	failures := 0
 	for i := 0; i < n; i++ {
+		if failures >= 8 {
+			// the run is already a violation with eight failing inputs on record: a defect that
+			// makes every affected request run into the client's time-out (an HTTP/2 PROTOCOL_ERROR
+			// is retried with back-off for a minute) must not keep the lane busy for an hour
+			t.Logf("e2e: stopping after %d failing cases (case %d of %d)", failures, i, n)
+			break
+		}
 		tc := c01GenE2E(r)
 		if verifh.Thorough() && i%200 == 0 && tc.bodyKind != "none" {
 			tc.body = c01GenBody(1<<20+r.Intn(3)-1, 7, 3)
@@ -618,6 +626,9 @@ func TestVerif_C01_e2e(t *testing.T) {
 		}
 		if len(tc.order) > 0 {
 			s.Count("header-order")
+		}
+		if !ok && class == "" {
+			failures++
 		}
 		s.Observe(fmt.Sprintf("e2e-%d", i), ok, class, allSeen, human, detail)
 	}
